@@ -32,7 +32,7 @@ pub static ALL_KINDS: [ChanKind; 11] = [ChanKind::UniMoveAtomic, ChanKind::UniMo
                                         ChanKind::MultiArcAtomic, ChanKind::MultiArcFullSync, ChanKind::MultiArcCrossbeam, ChanKind::MultiOgreAtomic, ChanKind::MultiOgreFullSync, ChanKind::MultiMmap];
 
 /// the (BUFFER_SIZE, MAX_STREAMS) menu every kind is instantiated with
-pub static CONFIGS: [(u8, u8); 7] = [(2, 1), (2, 2), (4, 1), (4, 2), (4, 4), (8, 2), (8, 4)];
+pub static CONFIGS: [(u8, u8); 9] = [(2, 1), (2, 2), (4, 1), (4, 2), (4, 4), (8, 2), (8, 4), (16, 16), (64, 8)];
 
 #[derive(Clone, Copy, Debug, PartialEq, Eq, Hash, Serialize, Deserialize, PartialOrd, Ord)]
 pub enum Entry {
@@ -345,6 +345,8 @@ macro_rules! by_cfg {
             (4, 4) => { const $B: usize = 4; const $M: usize = 4; $e },
             (8, 2) => { const $B: usize = 8; const $M: usize = 2; $e },
             (8, 4) => { const $B: usize = 8; const $M: usize = 4; $e },
+            (16, 16) => { const $B: usize = 16; const $M: usize = 16; $e },
+            (64, 8) => { const $B: usize = 64; const $M: usize = 8; $e },
             other => panic!("unsupported (BUFFER_SIZE, MAX_STREAMS) {:?}", other),
         }
     }
@@ -373,6 +375,8 @@ pub fn make(kind: ChanKind, buffer: u8, max_streams: u8, origin: u32) -> Arc<dyn
                 1 => Arc::new(MultiAd { ch: ChannelMultiMmapLog::<Tracked, 1>::new(name), kind, file }) as Arc<dyn Chan>,
                 2 => Arc::new(MultiAd { ch: ChannelMultiMmapLog::<Tracked, 2>::new(name), kind, file }) as Arc<dyn Chan>,
                 4 => Arc::new(MultiAd { ch: ChannelMultiMmapLog::<Tracked, 4>::new(name), kind, file }) as Arc<dyn Chan>,
+                16 => Arc::new(MultiAd { ch: ChannelMultiMmapLog::<Tracked, 16>::new(name), kind, file }) as Arc<dyn Chan>,
+                8 => Arc::new(MultiAd { ch: ChannelMultiMmapLog::<Tracked, 8>::new(name), kind, file }) as Arc<dyn Chan>,
                 other => panic!("unsupported MAX_STREAMS {other}"),
             }
         },
